@@ -514,6 +514,36 @@ def axioms_check(mon, stats):
             for t in sig:
                 if not isvariadic(t):
                     pool.setdefault(repr(t), t)
+    # synthesised unions and containers of unions over the reached types
+    import numbers
+    import typing
+
+    import funsor
+    from funsor.typing import typing_wrap
+
+    plain = [t for k, t in sorted(pool.items()) if type(t).__name__ != "_RuntimeSubclassCheckMeta"]
+    base = [funsor.terms.Funsor, funsor.Tensor, funsor.terms.Number, funsor.terms.Variable, numbers.Number, int, float, str]
+    r = W.rng("c16-axioms", len(plain))
+    unions = [
+        typing.Union[funsor.Tensor, funsor.terms.Number],
+        typing.Union[funsor.terms.Funsor, numbers.Number],
+        typing.Union[int, float],
+        typing.Union[funsor.terms.Number, funsor.Tensor, funsor.terms.Variable],
+    ]
+    cands = [t for t in plain if isinstance(t, type)] + base
+    for _ in range(24):
+        try:
+            unions.append(typing.Union[tuple(r.sample(cands, r.choice([2, 2, 3])))])
+        except Exception:  # noqa
+            pass
+    synth = list(base) + unions
+    for u in unions[:12]:
+        synth += [typing.Tuple[u, ...], typing.FrozenSet[u], typing.Tuple[u, u]]
+    synth += [typing.Tuple[funsor.terms.Funsor, ...], typing.Tuple[numbers.Number, ...], typing.FrozenSet[funsor.terms.Funsor]]
+    for t in synth:
+        pool.setdefault(repr(t), t)
+        w = typing_wrap(t)
+        pool.setdefault(repr(w), w)
     wrapped = {k: t for k, t in pool.items()}
     unwrapped = {}
     for k, t in pool.items():
@@ -527,7 +557,7 @@ def axioms_check(mon, stats):
     stats["axiom_triples"] = 0
     stats["axiom_pair_errors"] = 0
     for label, rel, members in (("issubclass (as used for matching)", _safe_issubclass_strict, wrapped), ("deep_issubclass", deep_issubclass, unwrapped)):
-        names = sorted(members)[:300]
+        names = sorted(members)[:420]
         types = [members[k] for k in names]
         n = len(types)
         R = np.zeros((n, n), dtype=bool)
@@ -624,6 +654,79 @@ def member(obj, tp):
     return None
 
 
+def ref_sub(a, b):
+    """Reference model of the subtype relation on the structured types that
+    patterns are made of (executable specification written from the meaning
+    of the types, independent of funsor.typing's code): True / False, or None
+    where the model does not speak (bare containers against parametrised ones)."""
+    import typing
+
+    from funsor.typing import GenericTypeMeta, get_args, get_origin
+
+    if type(a).__name__ == "_RuntimeSubclassCheckMeta":
+        a = a.__args__[0]
+    if type(b).__name__ == "_RuntimeSubclassCheckMeta":
+        b = b.__args__[0]
+    if a is object:
+        a = typing.Any
+    if b is object:
+        b = typing.Any
+    if b is typing.Any:
+        return True
+    if a is typing.Any:
+        return False
+    oa, ob = get_origin(a), get_origin(b)
+    aargs, bargs = get_args(a), get_args(b)
+    if oa is typing.Union:
+        res = [ref_sub(m, b) for m in aargs]
+        return None if any(x is None for x in res) else all(res)
+    if ob is typing.Union:
+        res = [ref_sub(a, m) for m in bargs]
+        if any(x is True for x in res):
+            return True
+        return None if any(x is None for x in res) else False
+    for base, tbase in ((tuple, typing.Tuple), (frozenset, typing.FrozenSet)):
+        if ob in (base, tbase):
+            if not (isinstance(oa, type) and issubclass(oa, base)) and oa is not tbase:
+                return False
+            if not bargs:
+                return True
+            if not aargs:
+                return None
+            if base is frozenset:
+                return ref_sub(aargs[0], bargs[0])
+            if bargs[-1] is Ellipsis:
+                if aargs[-1] is Ellipsis:
+                    return ref_sub(aargs[0], bargs[0])
+                res = [ref_sub(x, bargs[0]) for x in aargs]
+            else:
+                if aargs[-1] is Ellipsis or len(aargs) != len(bargs):
+                    return False
+                res = [ref_sub(x, y) for x, y in zip(aargs, bargs)]
+            if any(x is False for x in res):
+                return False
+            return None if any(x is None for x in res) else True
+        if oa in (base, tbase):
+            return False if isinstance(ob, type) and not issubclass(base, ob) else None
+    if isinstance(b, GenericTypeMeta):
+        if not isinstance(a, type) or not issubclass(oa if isinstance(oa, type) else object, ob):
+            return False
+        if not bargs:
+            return True
+        if not isinstance(a, GenericTypeMeta) or len(aargs) != len(bargs):
+            return False
+        res = [ref_sub(x, y) for x, y in zip(aargs, bargs)]
+        if any(x is False for x in res):
+            return False
+        return None if any(x is None for x in res) else True
+    if isinstance(a, type) and isinstance(b, type):
+        try:
+            return issubclass(oa if isinstance(a, GenericTypeMeta) else a, b)
+        except TypeError:
+            return None
+    return None
+
+
 def userland_dispatch(payload):
     """A user-defined registry whose patterns parametrise tuples, variadic
     tuples, unions and frozensets; the same argument objects are dispatched in
@@ -638,6 +741,7 @@ def userland_dispatch(payload):
 
 
 def _userland_session(payload):
+    import numbers
     import typing
     from collections import OrderedDict
 
@@ -677,18 +781,63 @@ def _userland_session(payload):
         ("t_fsbint", (funsor.Tensor, typing.FrozenSet[Variable[str, BintType]])),
         ("f_tup", (Funsor, tuple)),
         ("t_tupint", (funsor.Tensor, typing.Tuple[int, ...])),
+        ("u_narrow", (typing.Union[funsor.Tensor, Number],)),
+        ("u_wide", (typing.Union[Funsor, numbers.Number],)),
+        ("u_intfloat", (typing.Union[int, float],)),
+        ("pynumber", (numbers.Number,)),
+        ("tup_u_narrow", (typing.Tuple[typing.Union[Number, funsor.Tensor], ...],)),
+        ("tup_funsor", (typing.Tuple[Funsor, ...],)),
+        ("tup_u_wide", (typing.Tuple[typing.Union[Funsor, numbers.Number], ...],)),
+        ("fs_u", (typing.FrozenSet[typing.Union[Variable, Number]],)),
+        ("fs_tup", (typing.FrozenSet[tuple],)),
+        ("fs_tupint", (typing.FrozenSet[typing.Tuple[int, int]],)),
     ]
 
-    def make():
+    def make(subset=None):
         reg = KeyedRegistry(default=lambda *a: None)
         fns = {}
-        for name, types in patterns:
+        for name, types in (patterns if subset is None else subset):
             def fn(*args, _name=name):
                 return _name
 
             fn.__name__ = fn.__qualname__ = "user_rule_" + name
             reg.register(UKey, *types)(fn)
         return reg
+
+    def selected_ok(got, args, pats):
+        """The selected rule's pattern contains the arguments, and no other
+        pattern of the registry that contains them is strictly more specific."""
+        byname = dict(("user_rule_" + n, tps) for n, tps in pats)
+        matching = [(n, tps) for n, tps in pats if contains(tps, args) is True]
+        if got.startswith("raises:"):
+            return None  # deep_type refuses inhomogeneous sets: no dispatch happened
+        if got not in byname:
+            # the default rule ran: no pattern may contain the arguments
+            if got == "<default>" or not got.startswith("user_rule_"):
+                if matching and all(contains(tps, args) is not None for _, tps in pats):
+                    return {
+                        "invariant": "matching-rule-not-selected",
+                        "message": "arguments %s are members of pattern %s but the default rule was selected" % (repr(args)[:160], matching[0][0]),
+                        "fingerprint": "matching-rule-not-selected",
+                    }
+            return None
+        types = byname[got]
+        if contains(types, args) is False:
+            return {
+                "invariant": "selected-rule-does-not-match",
+                "message": "arguments %s were dispatched to %s whose pattern %r they are not members of" % (repr(args)[:160], got, types),
+                "fingerprint": "selected-rule-does-not-match",
+            }
+        for n, tps in matching:
+            if "user_rule_" + n == got:
+                continue
+            if below(tps, types) is True and below(types, tps) is False:
+                return {
+                    "invariant": "winner-not-most-specific",
+                    "message": "arguments %s were dispatched to %s %r although the matching pattern %s %r is strictly more specific" % (repr(args)[:160], got, types, n, tps),
+                    "fingerprint": "winner-not-most-specific",
+                }
+        return None
 
     i2 = Variable("i", funsor.Bint[2])
     j3 = Variable("j", funsor.Bint[3])
@@ -718,7 +867,19 @@ def _userland_session(payload):
         3,
         "s",
         2.5,
+        (t, Number(1)),
+        (Number(1), Number(2.5)),
+        (t, 2.5),
+        (t, x),
+        frozenset({i2, Number(1)}),
+        frozenset({(1, 2), (3, 4)}),
+        frozenset({(1, 2), (3, 4.5)}),
     ]
+    # seeded containers, including inhomogeneous ones (deep_type may refuse those)
+    atoms = [1, 2, 4, 2.5, "a", "b", (1, 2), (1, 2.5), (3,), ("a", 1), i2, j3, x, Number(1), Number(1.5), t]
+    for _ in range(payload.get("containers", 40)):
+        elems = [r.choice(atoms) for _ in range(r.randint(1, 4))]
+        singles.append(frozenset(elems) if r.random() < 0.7 else tuple(elems))
     argsets = [(a,) for a in singles]
     for a in (t, Number(2.0), x):
         for b in (frozenset(), frozenset({i2}), frozenset({x}), frozenset({"q"}), (), (1, 2), ("a",)):
@@ -737,6 +898,88 @@ def _userland_session(payload):
         for t in types:
             comps.extend(t if isinstance(t, tuple) else [t])
     objs = singles + [frozenset({j3}), frozenset({x, Variable("y", funsor.Real)}), ((1, 2), (3,)), (i2, x), (t,)]
+    bypattern = dict(("user_rule_" + name, types) for name, types in patterns)
+
+    def contains(types, args):
+        """Reference: are the arguments members of the pattern? (None: not modelled)"""
+        if len(types) != len(args):
+            return False
+        res = []
+        for tp, a in zip(types, args):
+            alts = tp if isinstance(tp, tuple) else (tp,)
+            m = [member(a, alt) for alt in alts]
+            res.append(True if any(x is True for x in m) else (None if any(x is None for x in m) else False))
+        if any(x is False for x in res):
+            return False
+        return None if any(x is None for x in res) else True
+
+    def below(p, q):
+        """Reference: is pattern p at least as specific as q? (single alternatives only)"""
+        if len(p) != len(q) or any(isinstance(t, tuple) for t in p + q):
+            return None
+        res = [ref_sub(a, b) for a, b in zip(p, q)]
+        if any(x is False for x in res):
+            return False
+        return None if any(x is None for x in res) else True
+
+    # the subtype relation against the reference model, all pairs of pattern components
+    from funsor.typing import deep_issubclass
+
+    model_pairs = 0
+    for a in comps:
+        for b in comps:
+            want = ref_sub(a, b)
+            if want is None:
+                continue
+            model_pairs += 1
+            try:
+                got = bool(deep_issubclass(a, b))
+            except Exception:  # noqa
+                continue
+            if got != want and not violations:
+                violations.append(
+                    {
+                        "invariant": "subtype-disagrees-with-reference-model",
+                        "message": "deep_issubclass(%r, %r) is %s; member-wise / element-wise reading of the two types says %s" % (a, b, got, want),
+                        "fingerprint": "subtype-disagrees-with-reference-model",
+                    }
+                )
+    from funsor.typing import deep_type
+
+    self_type_checks = 0
+    refused = 0
+    for o in objs:
+        try:
+            tp = deep_type(o)
+        except NotImplementedError:
+            refused += 1
+            continue
+        self_type_checks += 1
+        if member(o, tp) is False and not violations:
+            violations.append(
+                {
+                    "invariant": "not-instance-of-own-type",
+                    "message": "deep_type(%s) = %r, but the object is not a member of that type (element-wise membership)" % (repr(o)[:120], tp),
+                    "fingerprint": "not-instance-of-own-type",
+                }
+            )
+        if isinstance(o, frozenset) and len(o) > 1:
+            # the same set built in other insertion orders
+            for _ in range(2):
+                elems = list(o)
+                r.shuffle(elems)
+                try:
+                    tp2 = deep_type(frozenset(elems))
+                except NotImplementedError:
+                    tp2 = None
+                if tp2 is not tp and not violations:
+                    violations.append(
+                        {
+                            "invariant": "deep-type-frozenset-order",
+                            "message": "deep_type of %s is %r, and %r for the same set built in another order" % (repr(o)[:120], tp, tp2),
+                            "fingerprint": "deep-type-frozenset-order",
+                        }
+                    )
     for o in objs:
         for tp in comps:
             want = member(o, tp)
@@ -778,8 +1021,42 @@ def _userland_session(payload):
             except Exception as e:  # noqa
                 table[idx] = "raises:" + type(e).__name__
             dispatches += 1
+            v = selected_ok(table[idx], argsets[idx], patterns)
+            if v and not violations:
+                violations.append(v)
         tables.append(table)
         mon.checked.clear()
+    # small registries: every pair of patterns in both registration orders, and
+    # seeded subsets in seeded orders; the winner is checked against the
+    # reference reading of the patterns
+    subsets = []
+    for i in range(len(patterns)):
+        for j in range(i + 1, len(patterns)):
+            if len(patterns[i][1]) == len(patterns[j][1]):
+                subsets.append([patterns[i], patterns[j]])
+                subsets.append([patterns[j], patterns[i]])
+    for _ in range(payload.get("subsets", 60)):
+        sub = r.sample(patterns, r.randint(3, 7))
+        subsets.append(sub)
+    small = 0
+    for sub in subsets:
+        reg = make(sub)
+        arity = {len(types) for _, types in sub}
+        for args in argsets:
+            if len(args) not in arity:
+                continue
+            try:
+                fn = reg.dispatch(UKey, *args)
+                got = getattr(fn, "__name__", "<default>")
+            except Exception as e:  # noqa
+                continue
+            small += 1
+            v = selected_ok(got, args, sub)
+            if v and not violations:
+                v["message"] += " [registry of %s, registered in this order]" % ([n for n, _ in sub],)
+                violations.append(v)
+        if violations:
+            break
     ref = tables[0]
     for rep, table in enumerate(tables[1:], 1):
         for idx, rule in table.items():
@@ -796,7 +1073,7 @@ def _userland_session(payload):
     mon.uninstall()
     return {
         "violations": violations[:1],
-        "stats": {"runs": 0, "dispatch_calls": mon.calls, "userland_dispatches": dispatches, "userland_argument_tuples": len(argsets), "membership_checks": membership_checks, "faults": faults},
+        "stats": {"runs": 0, "dispatch_calls": mon.calls, "userland_dispatches": dispatches, "userland_argument_tuples": len(argsets), "membership_checks": membership_checks, "self_type_checks": self_type_checks, "inhomogeneous_sets_refused": refused, "reference_model_pairs": model_pairs, "small_registries": len(subsets), "small_registry_dispatches": small, "faults": faults},
         "table": {},
     }
 
@@ -1014,6 +1291,11 @@ def summarize(jobs, results, tier):
         "userland_registry_dispatches": tot.get("userland_dispatches", 0),
         "membership_vs_reference_model_checks": tot.get("membership_checks", 0),
         "precise_type_checks": tot.get("precise_type_checks", 0),
+        "container_self_type_checks": tot.get("self_type_checks", 0),
+        "inhomogeneous_sets_refused_by_deep_type": tot.get("refused", 0) + tot.get("inhomogeneous_sets_refused", 0),
+        "subtype_vs_reference_model_pairs": tot.get("reference_model_pairs", 0),
+        "small_registries_built": tot.get("small_registries", 0),
+        "small_registry_dispatches": tot.get("small_registry_dispatches", 0),
         "frozenset_order_checks": tot.get("frozenset_checks", 0),
         "terms_visited": tot.get("terms", 0),
         "faults_fired_by_kind": faults,
